@@ -71,7 +71,29 @@ class Exploding:
 
 PLAIN_KINDS = ("int", "str", "bytes", "float", "none", "list", "tuple", "dict", "ndarray", "series")
 KINDS = PLAIN_KINDS + ("set", "frozenset", "reclist", "recdict", "point", "partial", "func", "custom",
-                       "nested_tok", "fsset", "tupset")
+                       "nested_tok", "fsset", "tupset", "localcls", "localinst")
+
+# classes created at run time (pickled by value by cloudpickle, like classes defined in __main__ or in
+# a function); one class object per number and run, see reset_local_classes()
+_LOCAL_CLASSES: dict = {}
+
+
+def reset_local_classes():
+    _LOCAL_CLASSES.clear()
+
+
+def local_class(n):
+    if n not in _LOCAL_CLASSES:
+        def __init__(self, v):
+            self.v = v
+
+        def __eq__(self, other):
+            return type(other) is type(self) and other.v == self.v
+
+        cls = type(f"Local{n}", (), {"__init__": __init__, "__eq__": __eq__, "__hash__": None,
+                                     "__module__": "__main__", "number": n})
+        _LOCAL_CLASSES[n] = cls
+    return _LOCAL_CLASSES[n]
 
 
 def gen_spec(tape, depth=0, plain=False):
@@ -103,6 +125,10 @@ def gen_spec(tape, depth=0, plain=False):
         return ["series", [tape.draw(100, "sv") for _ in range(n)], f"name{tape.draw(3, 'nm')}"]
     if k in ("set", "frozenset"):
         return [k, sorted({f"e{tape.draw(30, 'se')}" for _ in range(tape.draw(5, "n"))})]
+    if k == "localcls":
+        return ["localcls", tape.draw(2, "lc")]
+    if k == "localinst":
+        return ["localinst", tape.draw(2, "lc"), tape.draw(5, "lv")]
     if k == "fsset":
         # a set of frozensets of small ints (members that "<" only partially orders, and whose own
         # iteration order depends on the insertion order when hashes collide modulo the table size)
@@ -160,6 +186,10 @@ def build(spec, rev=False):
         return set(spec[1])
     if k == "frozenset":
         return frozenset(spec[1])
+    if k == "localcls":
+        return local_class(spec[1])
+    if k == "localinst":
+        return local_class(spec[1])(spec[2])
     if k == "fsset":
         return {frozenset(m) for m in spec[1]}
     if k == "tupset":
